@@ -769,51 +769,9 @@ func checkCredentialPlumbing(c *engine.Ctx, rule string) {
 				}
 				for _, sv := range nameStores(al, dst) {
 					n++
-					ss := provThroughCallers(sv, f, pkgFuncs...)
-					// a field of a parameter struct (a small "params" carrier): field-sensitive at the call sites —
-					// what the callers stored into that very field of the struct they pass
-					if root, path := engine.FieldPath(engine.Unwrap(sv)); len(path) == 1 {
-						pr, ok := root.(*ssa.Parameter)
-						if al, isAl := root.(*ssa.Alloc); isAl && !ok && al.Referrers() != nil {
-							// the parameter spilled into a local at entry (field selection on a struct parameter)
-							for _, r := range *al.Referrers() {
-								if st, isSt := r.(*ssa.Store); isSt && st.Addr == ssa.Value(al) {
-									if q, isP := st.Val.(*ssa.Parameter); isP {
-										pr, ok = q, true
-									}
-								}
-							}
-						}
-						if ok {
-							if fobj, _ := f.Object().(*types.Func); fobj != nil {
-								idx := -1
-								for i, q := range f.Params {
-									if q == pr {
-										idx = i
-									}
-								}
-								var viaStruct srcSet
-								for _, g := range pkgFuncs {
-									for _, cs := range engine.CallsToDeep(g, fobj) {
-										if idx < 0 || idx >= len(cs.Common().Args) {
-											continue
-										}
-										a := cs.Common().Args[idx]
-										if u, ok := a.(*ssa.UnOp); ok && u.Op == token.MUL {
-											if al, ok := u.X.(*ssa.Alloc); ok {
-												for _, fvv := range nameStores(al, path[0]) {
-													viaStruct = append(viaStruct, engine.Provenance(fvv, engine.ProvOpts{}))
-												}
-											}
-										}
-									}
-								}
-								if len(viaStruct) > 0 {
-									ss = viaStruct
-								}
-							}
-						}
-					}
+					// through helper parameters, parameter-carrying structs, constructors of such structs and methods on
+					// them: the interprocedural, field-sensitive origin of the stored value
+					ss := srcSet{engine.DeepSources(p, sv)}
 					good, bad := false, ""
 					for _, src := range ss {
 						for fv := range src.Fields {
